@@ -135,6 +135,14 @@ for form, tier in [("fast", "thorough"), ("lifted", "thorough"), ("robust1", "th
     h("C12", "c12", f"c12_insphere2d_{form}_dyadic_edge", tier, 3000,
       f"D=2 in-sphere ({form}) on small-scale dyadic input 2^-k*Z^2, k symbolic in 0..=10: simplex edge (0,0)-(1,0), third "
       "vertex and query over [-2,2]^2 (all scaled): exact sign (|det| >= 9e-13 is > 100x the documented tolerance)", LU4 + LU3)
+for form, fns in [("fast", ["geometry::kernel::FastKernel::in_sphere (T = f32)", "geometry::predicates::insphere (T = f32)"]),
+                  ("lifted", ["geometry::predicates::insphere_lifted (T = f32)"]),
+                  ("robust1", ["geometry::robust_predicates::adaptive_tolerance_insphere (T = f32)"])]:
+    h("C12", "c12", f"c12_insphere2d_{form}_f32_large", "thorough", 9000,
+      f"D=2 in-sphere ({form}), T = f32, LARGE exactly representable coordinates: triangle (9846,27),(11,9865),(-9858,1) and "
+      "query (1,-9839) with the third vertex and the query each displaced by every offset of [-3,3]^2 (2401 configurations): "
+      "the strict exact sign wherever |det| >= 1e6 (six orders above the f64 rounding error) -- regression guard for F5",
+      fns + LU4 + LU3)
 PROP_ASSUMPTIONS["C12"] = [
     "coordinates are small integers (or integers times 2^-k) cast exactly to f64; D>=4, D=3 in-sphere and the distance-based "
     "cross-check / perturbation fallbacks of robust_insphere are outside the claim",
